@@ -330,10 +330,16 @@ class Ctx(object):
                 ev["held"] = 1 - ev["held"]
             bads.append(b)
         if bads:
-            r, summary, rej = trmod.validate_virtual_traces(bads, os.path.join(wd, "selftest"))
-            if not summary or summary[1] < max(1, len(bads) - 2):
-                raise MachineryError("%s: binding self-test: corrupted sessions were accepted (%r)" % (name, summary))
-            self.notes.append("%s: binding self-test: %d of %d corrupted sessions rejected" % (name, summary[1], len(bads)))
+            # one TLC run per corrupted session: a session is NOT accepted when TLC prints TRACE-REJECTED for it or cannot consume it
+            # to its end (no TRACES-CHECKED line although the run completed: no step of TraceVirtual matches the corrupted event)
+            nrej = 0
+            for k, b in enumerate(bads):
+                r, summary, rej = trmod.validate_virtual_traces([b], os.path.join(wd, "selftest"))
+                if (summary and summary[1] >= 1) or (not summary and "Model checking completed" in r.log):
+                    nrej += 1
+            if nrej < max(1, len(bads) - 2):
+                raise MachineryError("%s: binding self-test: corrupted sessions were accepted (%d of %d rejected)" % (name, nrej, len(bads)))
+            self.notes.append("%s: binding self-test: %d of %d corrupted sessions rejected" % (name, nrej, len(bads)))
         r, summary, rej = trmod.validate_virtual_traces(trs, wd)
         if not summary:
             sys.stderr.write(r.log[-3000:] + "\n")
